@@ -3,9 +3,20 @@
 PROPS = {}
 
 
+# applied to every harness: the error payload type nests through TaskFailure { error: Box<payload> };
+# without a recursion limit its drop glue is unrolled to the global bound wherever a Result is dropped
+DEFAULT_LIMITS = {
+    r"^std::ptr::drop_(in_place|glue)::<(std::boxed::Box<)?cao_lang::prelude::ExecutionErrorPayload>?>$": 1,
+    r"^std::ptr::drop_(in_place|glue)::<(std::boxed::Box<)?cao_lang::prelude::ExecutionError>?>$": 1,
+}
+
+
 def H(mod, name, tier="quick", steps=1, bounds="", what="", **kw):
     d = dict(name=name, qual=f"{mod}::{name}", tier=tier, steps=steps, bounds=bounds, what=what)
     d.update(kw)
+    lim = dict(DEFAULT_LIMITS)
+    lim.update(d.get("limits") or {})
+    d["limits"] = lim
     return d
 
 
